@@ -261,6 +261,18 @@ def scn(params):
                 k.at(tt + (0 if side == "srv" else 3000), k.offer_tun, "srv" if side == "srv" else "cli0", f, ident)
             # leave room for slow paths (small fragments over a 40 ms round trip)
             tt += max(2 * US, int(1134.0 / max(frag, 1) * 150000))
+        if params["idx"] % 4 == 2 and frag >= 40 and neg.get("lazy"):
+            # downstream length sweep: one-fragment packets of every compressed length up to the negotiated fragment size (random
+            # contents: the compressed length grows with the size byte by byte), so every answer length the settled record type
+            # and codec can be asked to carry occurs once
+            nsw = 0
+            for size in range(24, min(frag, 1300) - 10):
+                ident += 1
+                fid = (params["idx"] << 20) | ident
+                k.at(tt, k.offer_tun, "srv", proto.make_frame(stip, ctip, fid, size, "random", rng), ident)
+                tt += 150000          # (lazy mode only: the server can hand a packet out at once, the client asks again at once)
+                nsw += 1
+            out["stats"]["down_length_sweep_packets"] = nsw
         k.run(tt + 120 * US)
         for p_, who in ((c, "client"), (srv, "server")):
             hh = sim.health(p_)
